@@ -301,6 +301,14 @@ def dict_get(it, c, key, default, raise_key):
     if ctx.spec_mode:
         dflt = box(default) if default is not None else Val.NoneV
         return VBox(z3.If(present, z3.Select(arr, k), dflt))
+    if not raise_key:
+        # .get(key, default): merge instead of forking when the default is
+        # a scalar (fewer paths, same meaning)
+        try:
+            dflt = box(default) if default is not None else Val.NoneV
+            return VBox(z3.If(present, z3.Select(arr, k), dflt))
+        except Unsupported:
+            pass
     if ctx.branch(present):
         return VBox(z3.simplify(z3.Select(arr, k)))
     if raise_key:
@@ -777,7 +785,8 @@ def builtin_isinstance(it, v, cls):
     ctx = it.ctx
     classes = [c.py for c in cls.items] if isinstance(cls, VTuple) \
         else [cls.py]
-    if isinstance(v, VBox) and ctx.spec_mode:
+    if isinstance(v, VBox):
+        # symbolic answer (no fork on the dynamic type)
         e = v.e
         tests = []
         for c in classes:
